@@ -190,7 +190,7 @@ def action_fields (a):
 def gen_phy_port (rng):
   o = of()
   return o.ofp_phy_port(port_no=rint(rng, 16), hw_addr=rmac(rng),
-                        name=rstr(rng, 16).replace("\xe9", "e").replace("\xff", "f"),
+                        name=rstr(rng, 16),
                         config=rint(rng, 32), state=rint(rng, 32),
                         curr=rint(rng, 32), advertised=rint(rng, 32),
                         supported=rint(rng, 32), peer=rint(rng, 32))
@@ -265,7 +265,7 @@ def gen_stats_request (rng, kind=None):
 def gen_stats_entry (rng, k):
   o = of()
   if k == "desc":
-    a = lambda n: rstr(rng, n).replace("\xe9", "e").replace("\xff", "f")
+    a = lambda n: rstr(rng, n)
     return o.ofp_desc_stats(mfr_desc=a(256), hw_desc=a(256), sw_desc=a(256),
                             serial_num=a(32), dp_desc=a(256))
   if k == "flow":
@@ -282,7 +282,7 @@ def gen_stats_entry (rng, k):
                                  flow_count=rint(rng, 32))
   if k == "table":
     return o.ofp_table_stats(table_id=rint(rng, 8),
-                             name=rstr(rng, 32).replace("\xe9", "e").replace("\xff", "f"),
+                             name=rstr(rng, 32),
                              wildcards=rint(rng, 32), max_entries=rint(rng, 32),
                              active_count=rint(rng, 32),
                              lookup_count=rint(rng, 64),
